@@ -62,11 +62,43 @@ def spec(v: Any) -> str:
 	raise AssertionError(v)
 
 
+_VERSIONS: list[tuple[str, str, str]] = []
+
+
 def versions() -> tuple[str, str, str]:
+	"""(Versions.app, Versions.py2cpp, transpiler module name) as shipped (captured before any run patches them)."""
+	if not _VERSIONS:
+		from rogw.tranp.data.version import Versions
+		from rogw.tranp.implements.cpp.transpiler.py2cpp import Py2Cpp
+		from rogw.tranp.lang.module import to_fullyname
+		_VERSIONS.append((Versions.app, Versions.py2cpp, to_fullyname(Py2Cpp)))
+	return _VERSIONS[0]
+
+
+@contextlib.contextmanager
+def patched_versions(app: str, py2cpp: str) -> Any:
+	"""The version constants compiled into the program, as a later release would carry them (restored afterwards)."""
 	from rogw.tranp.data.version import Versions
-	from rogw.tranp.implements.cpp.transpiler.py2cpp import Py2Cpp
-	from rogw.tranp.lang.module import to_fullyname
-	return Versions.app, Versions.py2cpp, to_fullyname(Py2Cpp)
+	versions()
+	old = (Versions.app, Versions.py2cpp)
+	Versions.app, Versions.py2cpp = app, py2cpp
+	try:
+		yield
+	finally:
+		Versions.app, Versions.py2cpp = old
+
+
+def root_cause(e: BaseException) -> BaseException:
+	"""Modules.load reports unexpected exceptions as Errors.Fatal(..., cause): the run status names the root cause."""
+	try:
+		from rogw.tranp.errors import Errors
+		seen = 0
+		while isinstance(e, Errors.Fatal) and e.__cause__ is not None and seen < 10:
+			e = e.__cause__
+			seen += 1
+	except Exception:  # noqa: BLE001
+		pass
+	return e
 
 
 def correspond_skip(name: str, cases: list[tuple[Any, list[str], list[str]]], classify: Any = None, max_report: int = 5) -> Stream:
@@ -396,9 +428,11 @@ def real_output_filepath(output_dirs: list[str], output_language: str, module: s
 		os.chdir(old)
 
 
-COND_PIECES = ['app', 'app/', 'app/sub/', 'app/s', 'a', 'lib/', 'app/*', 'app/sub/*', '*', 'app*', 'a.p/*', 'app/.*', '*/x.h', 'app/**', '', 'ap', 'app/x.h', 'lib/*', 'app/x', '.pp/', 'x', '*.h', 'app/-', 'app_2/']
+COND_PIECES = ['app', 'app/', 'app/sub/', 'app/s', 'a', 'lib/', 'app/*', 'app/sub/*', '*', 'app*', 'a.p/*', 'app/.*', '*/x.h', 'app/**', '', 'ap', 'app/x.h', 'lib/*', 'app/x', '.pp/', 'x', '*.h', 'app/-', 'app_2/', 'lib/', 'a/', 'app/sub/', 'sub/']
 DIR_PIECES = ['out', './out', 'out/', '', '.', '..', '../x', '/abs', '//abs2', '///abs3', 'out/../out2', 'a//b', './', 'out/app', 'out/lib', 'o/./p', '/', '/abs/../..', 'out/sub']
-MODULE_PATHS = ['app.x', 'app.sub.x', 'x', 'ap', 'app', 'appx.y', 'a.b.c', 'lib.x', 'lib.sub.x', 'app.x_h', 'sub.x', 'app.app.x', 'aXp.x', 'app.s', 'app.sx', 'app_2.x']
+MODULE_PATHS = ['app.x', 'app.sub.x', 'x', 'ap', 'app', 'appx.y', 'a.b.c', 'lib.x', 'lib.sub.x', 'app.x_h', 'sub.x', 'app.app.x', 'aXp.x', 'app.s', 'app.sx', 'app_2.x',
+	# the text of a rule's condition occurs again later in the path
+	'app.sub.app.x', 'app.sub.app.sub.x', 'lib.app.x', 'lib.lib.x', 'a.a.a']
 ODD_MODULE_PATHS = ['app..x', '.x', 'x.', '', '..', 'app/x', 'a.-', 'é.x', 'a b.c']
 LANGS = ['cpp:h', 'cpp:h', 'cpp:h', 'h', 'cpp:hpp', 'a:b:c', '', ':', 'cpp:', ':h', 'cpp:h.in']
 
@@ -560,6 +594,7 @@ class RealCase:
 		self.proj = tproj.Project(root, package='', output_dirs=dirs, output_language=lang, input_globs=[f'{p}/**/*.py' for p in self.packages],
 			config_extra=self.force_line(force_cfg))
 		self.force_cfg = force_cfg
+		self.vers = {'app': versions()[0], 'py2cpp': versions()[1]}
 		for m in self.graph:
 			self.proj.write_module(m, self.source(m))
 		if seed_cache:
@@ -578,6 +613,7 @@ class RealCase:
 		c.__dict__.update(self.__dict__)
 		c.proj = proj
 		c.variants = dict(self.variants)
+		c.vers = dict(self.vers)
 		c.written_with = {k: dict(v) for k, v in self.written_with.items()}
 		c.foreign = set(self.foreign)
 		return c
@@ -640,7 +676,8 @@ class RealCase:
 	def run(self, force: bool) -> tuple[str, list[str], list[str], tproj.RunResult]:
 		"""One real command-line run; (status, outputs read, outputs written, result)."""
 		before = self.proj.output_mtimes()
-		res, events = run_observed(self.proj, force)
+		with patched_versions(self.vers['app'], self.vers['py2cpp']):
+			res, events = run_observed(self.proj, force)
 		status = 'ok' if res.ok else res.error
 		reads = [p for k, p in events if k == 'r']
 		writes = [p for k, p in events if k == 'w']
@@ -679,6 +716,9 @@ class RealCase:
 			self.proj.config_extra = self.force_line(op[1])
 			self.proj.write_config()
 			return f"setforce\t{'none' if op[1] is None else ('true' if op[1] else 'false')}", self.observe('ok', [], [])
+		if kind == 'setver':
+			self.vers[op[1]] = op[2]
+			return f'setver\t{op[1]}\t{hx(op[2])}', self.observe('ok', [], [])
 		if kind == 'put':
 			r = self.real_path(op[1])
 			if not r.startswith('ok '):
@@ -712,7 +752,7 @@ def run_observed(proj: tproj.Project, force: bool) -> tuple[tproj.RunResult, lis
 				App(TranspileApp.definitions(Args(list(argv)))).run(TranspileApp.run)
 			except Exception as e:  # noqa: BLE001 - the outcome class is the observation
 				res.ok = False
-				res.error = common.exc_enum(e)
+				res.error = common.exc_enum(root_cause(e))
 				res.message = f'{type(e).__name__}: {e}'[:300]
 				res.exc = e
 			raw = list(events)
@@ -726,6 +766,8 @@ def run_observed(proj: tproj.Project, force: bool) -> tuple[tproj.RunResult, lis
 	res.wall = time.time() - t0
 	return res, picked
 
+
+VERSION_POOL = ['1.0.0', '1.0.1', '2.0.0', '0.9']
 
 FOREIGN_CONTENTS = [
 	'', 'int x;\n', '// @tranp.meta', '// @tranp.meta: {}\n', '// @tranp.meta: {"version":"1.0.0","module":{"hash":"h","path":"p"},"transpiler":{"version":"1.0.0","module":"m"}}',
@@ -758,29 +800,32 @@ def gen_variants(rng: random.Random, graph: dict[str, list[str]]) -> dict[str, i
 	return {m: rng.randrange(N_VARIANTS) for m in graph}
 
 
-def next_op(rng: random.Random, case: RealCase, with_put: bool = True, with_force: bool = True, with_dirs: bool = True) -> list[Any]:
+def next_op(rng: random.Random, case: RealCase, with_put: bool = True, with_force: bool = True, with_dirs: bool = True, with_ver: bool = True) -> list[Any]:
 	r = rng.random()
 	mods = list(case.graph)
-	if r < 0.28:
+	if r < 0.26:
 		m = rng.choice(mods)
 		v = rng.randrange(N_VARIANTS) if rng.random() < 0.7 else (case.variants[m] + 1) % 4 + 4 * (case.variants[m] // 4)
 		if rng.random() < 0.1:
 			v = case.variants[m]		# rewrite without change: new mtime, same hash
 		return ['edit', m, v]
-	if r < 0.52:
+	if r < 0.48:
 		return ['run', 0]
-	if r < 0.66:
+	if r < 0.61:
 		return ['run', 1]
-	if r < 0.76:
+	if r < 0.70:
 		return ['rm', rng.choice(mods)]
-	if r < 0.86 and with_dirs:
+	if r < 0.80 and with_dirs:
 		for _ in range(20):
 			dirs = gen_safe_dirs(rng)
 			if case.safe(dirs):
 				return ['setdirs', dirs]
 		return ['run', 0]
-	if r < 0.92 and with_force:
+	if r < 0.86 and with_force:
 		return ['setforce', rng.choice([None, True, False])]
+	if r < 0.92 and with_ver:
+		which = rng.choice(['app', 'app', 'py2cpp'])
+		return ['setver', which, rng.choice([v for v in VERSION_POOL if v != case.vers[which]] + [case.vers[which]])]
 	if with_put:
 		m = rng.choice(mods)
 		if rng.random() < 0.4:
@@ -896,11 +941,17 @@ def diagnose_fixpoint(ctx: Ctx, case: RealCase, a: tuple[str, dict[str, bytes], 
 		return 'output-missing-after-plain-run', f'{rel} (module {m}) does not exist after the plain run'
 	if path in a[2]:
 		return 'regenerated-output-differs', f'module {m} was regenerated by both runs with different results; {detail}'
+	# the header the stale file records, read with the harness' own parser (not with the code under test)
+	line = first_line(a[1][rel])
 	try:
-		old = MetaHeader.try_from_content(a[1][rel].decode('utf-8', 'replace'))
+		recorded = json.loads(line.split(f'{MetaHeader.Tag}: ', 1)[1])
 	except Exception as e:  # noqa: BLE001
-		return f'stale-output-unreadable-header:{common.exc_enum(e)}', detail
-	own_unchanged = old is not None and old.module_meta == {'hash': case.token(m), 'path': m}
+		return f'stale-output-unreadable-header:{type(e).__name__}', detail
+	rec_versions = (recorded.get('version'), (recorded.get('transpiler') or {}).get('version'))
+	if rec_versions != (case.vers['app'], case.vers['py2cpp']):
+		return 'stale-version-output', (f'module {m}: {rel} records application / transpiler version {rec_versions}, the running program is '
+			f"{(case.vers['app'], case.vers['py2cpp'])}; the plain run does not regenerate it; {detail}")
+	own_unchanged = recorded.get('module') == {'hash': case.token(m), 'path': m}
 	snap = case.written_with.get(path, {})
 	changed_deps = sorted(d for d in closure(case.graph, m) if snap.get(d) != case.source(d))
 	if own_unchanged and changed_deps:
@@ -972,7 +1023,11 @@ def fixpoint_history(ctx: Ctx, rng: random.Random, res: SearchResult, hist: Coun
 					case.proj.output_dirs = d
 					case.proj.write_config()
 					break
-		if not flat and rng.random() < 0.5:
+		if rng.random() < 0.15:
+			# a run, then a release with another application / transpiler version
+			which = rng.choice(['app', 'py2cpp'])
+			directed = [['run', rng.choice([0, 1])], ['setver', which, rng.choice(VERSION_POOL[1:])]]
+		elif not flat and rng.random() < 0.5:
 			# a run, then a change of the declared type in a module that others import
 			imported = sorted({d for ds in case.graph.values() for d in ds})
 			d = rng.choice(imported)
@@ -1070,7 +1125,7 @@ def search_roundtrip(ctx: Ctx) -> SearchResult:
 		if shape < 0.75:
 			m: Any = {'hash': rng.choice([hashlib.md5(txt().encode('utf-8', 'surrogatepass')).hexdigest(), txt()]), 'path': rng.choice(['app.a', txt()])}
 			t: Any = {'version': rng.choice(['1.0.0', txt()]), 'module': rng.choice(['rogw.tranp.implements.cpp.transpiler.py2cpp.Py2Cpp', txt()])}
-			ver: Any = rng.choice([None, '1.0.0', txt(), ''])
+			ver: Any = rng.choice([None, '1.0.0', '2.0.0', '0.9', txt(), ''])
 			kind = 'shaped'
 		else:
 			m, t, ver = gen_json(rng, 3), gen_json(rng, 2), gen_version(rng)
@@ -1089,6 +1144,8 @@ def search_roundtrip(ctx: Ctx) -> SearchResult:
 			h2 = MetaHeader.try_from_content(content)
 			if h2 is None:
 				outcome = 'none'
+			elif h2.app_version != h.app_version:
+				outcome = 'version-differs'
 			elif not (h2 == h) or h2.to_json() != h.to_json():
 				outcome = 'differs'
 		except Exception as e:  # noqa: BLE001 - rule 14
@@ -1107,6 +1164,40 @@ def search_roundtrip(ctx: Ctx) -> SearchResult:
 	res.histogram = dict(hist)
 	res.note = 'strings with quotes, backslashes, braces, the tag, control / non-ASCII / non-BMP characters and lone surrogates; prefixes never contain the tag; bodies may'
 	return res
+
+
+def expected_output_path(dirs: list[str], lang: str, module: str, cwd: str) -> tuple[str, str] | None:
+	"""The documented meaning of output_dirs ('{input dir}/*:{output dir}' keeps the path below the output directory,
+	'{input dir}/:{output dir}' replaces the leading input directory, the last entry is the fallback), written independently of
+	bin/transpile.py. Returns (absolute path, deciding rule kind), or None outside the domain in which this reading is exact
+	(a glob condition must be `<literal directory>/*` without dots or further stars; entries must be `condition:directory`)."""
+	import posixpath
+	parts = lang.split(':')
+	ext = parts[1] if len(parts) == 2 else parts[0]
+	filepath = module.replace('.', '/') + '.' + ext
+	if not dirs:
+		return None
+	chosen: tuple[str, str, str] | None = None
+	for entry in dirs[:-1]:
+		if entry.count(':') != 1:
+			return None
+		cond, out = entry.split(':')
+		if cond.endswith('*'):
+			stem = cond[:-1]
+			if '*' in stem or '.' in stem or not stem.endswith('/') or not all(c.isalnum() or c in '_/-' for c in stem):
+				return None
+			if filepath.startswith(stem) and len(filepath) > len(stem):
+				chosen = (out, filepath, 'glob')
+				break
+			continue
+		if '*' in cond:
+			continue		# a star inside a prefix condition never occurs in a file path
+		if filepath.startswith(cond):
+			chosen = (out, filepath[len(cond):], 'prefix')
+			break
+	if chosen is None:
+		chosen = (dirs[-1], filepath, 'fallback')
+	return posixpath.normpath(posixpath.join(cwd, posixpath.join(chosen[0], chosen[1]))), chosen[2]
 
 
 def search_paths(ctx: Ctx) -> SearchResult:
@@ -1134,6 +1225,23 @@ def search_paths(ctx: Ctx) -> SearchResult:
 			if sum(1 for f in res.findings if f.key.startswith('output-path-error')) < 3:
 				res.findings.append(Finding(key=f'output-path-error:{bad[0]}', what=f'output_dirs {dirs}: output_filepath raises {bad} for a well-formed configuration',
 					replay={'search': 'paths', 'dirs': dirs, 'lang': lang, 'modules': mods}))
+			continue
+		# each path against the documented meaning of the rules (an oracle that does not call the code under test)
+		wrong = False
+		for m, o in outs.items():
+			exp = expected_output_path(dirs, lang, m, base)
+			if exp is None:
+				hist['reference:outside-domain'] += 1
+				continue
+			hist['reference:checked'] += 1
+			if common.unhx(o[3:]) != exp[0]:
+				wrong = True
+				key = f'output-path-wrong:{exp[1]}'
+				hist[f'finding:{key}'] += 1
+				if sum(1 for f in res.findings if f.key == key) < 3:
+					res.findings.append(Finding(key=key, what=f'output_dirs {dirs}: module {m} goes to {common.unhx(o[3:])}, the {exp[1]} rule says {exp[0]}',
+						replay={'search': 'paths', 'dirs': dirs, 'lang': lang, 'modules': [m]}))
+		if wrong:
 			continue
 		by_path: dict[str, list[str]] = {}
 		for m, o in outs.items():
@@ -1216,8 +1324,8 @@ STATEMENTS = {
 	'header_rt_no_newline_counterexample': 'without a line break after the header line the slice loses the closing brace (find() = -1 is taken as an end bound by rfind): statement false',
 	'regen': 'target selection: a module is regenerated iff it is listed and (effective force ∨ no file ∨ no header ∨ recorded header identity ≠ current); order kept',
 	'untouched': 'a path the Writer is not invoked with keeps bytes and mtime; the Writer is invoked only with paths of selected targets',
-	'force_flag_counterexample': "`-f` does not force when the config file has `force: false` (config.get('force', args.force)): statement false",
-	'force_flag_partial': 'without a force key in the config file the flag decides, and run -f writes every module',
+	'force_flag': "`-f` always forces (args.force or config.get('force', False)): run -f transpiles and writes every module, whatever the config file says",
+	'force_config': 'without the flag a run is forced exactly when the config file says force: true',
 	'fixpoint_counterexample': 'two modules, b imports c: run; edit c; a plain run keeps b.h, a forced run rewrites it — the fix-point law is false (header hashes own source only)',
 	'fixpoint_partial': 'for ALL histories of edit/run/run -f/rm-output/set-dirs/set-force from an empty output tree the plain run leaves the contents a forced run leaves, when outputs depend on the own source only, md5 is collision-free, paths are pairwise distinct',
 	'fixpoint_shared_path_counterexample': 'fixpoint_partial without pairwise distinct paths is false: two modules at one path make every plain run rewrite the other module (targets are selected up front), unlike a forced run',
@@ -1246,8 +1354,8 @@ def run(ctx: Ctx) -> int:
 		partial={
 			'proved': 'header read-back (header_slice, header_rt over the real json.dumps printer; json_no_newline, json_ends_with_brace), regeneration decision (regen), '
 				'untouched files (untouched), path-injectivity check (paths_iff, paths_fallback_only), fix-point for own-source-only outputs over all histories (fixpoint_partial), '
-				'flag semantics (force_flag_partial) — all on the model',
-			'proved_false': 'fix-point law in general (fixpoint_counterexample: stale dependants), `-f` under `force: false` (force_flag_counterexample), '
+				'flag semantics (force_flag, force_config) — all on the model',
+			'proved_false': 'fix-point law in general (fixpoint_counterexample: stale dependants; fixpoint_shared_path_counterexample), '
 				'path injectivity under prefix/glob rules (paths_counterexample), header read-back without trailing line break (header_rt_no_newline_counterexample)',
 			'correspondence_only': 'json.loads (driver-side parser tied by the header stream), the transpiler body, file-system semantics (file vs directory conflicts are excluded from generated configurations)',
 			'search_only': 'that real outputs depend on imported modules (fix-point search on import graphs); that the law holds on graphs without imports',
@@ -1285,6 +1393,10 @@ def replay(ctx: Ctx, path: str) -> int:
 		print({m: (common.unhx(o[3:]) if o.startswith('ok ') else o) for m, o in outs.items()})
 		if len(set(outs.values())) < len(outs):
 			res.findings.append(Finding('replay', 'modules share an output path', inp))
+		for m, o in outs.items():
+			exp = expected_output_path(inp['dirs'], inp['lang'], m, base)
+			if exp is not None and o.startswith('ok ') and common.unhx(o[3:]) != exp[0]:
+				res.findings.append(Finding('replay', f'module {m} goes to {common.unhx(o[3:])}, the {exp[1]} rule says {exp[0]}', inp))
 	elif kind == 'roundtrip':
 		from rogw.tranp.data.meta.header import MetaHeader
 		inp = json.loads(inp['ascii_json']) if 'ascii_json' in inp else inp
